@@ -173,11 +173,12 @@ def _c(v):
 
 
 def _stmt_node(ids):
-    return AttrTree('statement', (AttrToken('S', ','.join(str(i) for i in ids)),))
+    # like a real statement node, the stand-in ends with the line break of its line
+    return AttrTree('statement', (AttrToken('S', ','.join(str(i) for i in ids) + '\n'),))
 
 
 def _node_ids(node):
-    v = node.children[0].value
+    v = node.children[0].value.strip()
     if v.startswith('c'):
         return []             # continuation node of a statement that prints as several nodes
     return [int(x) for x in v.split(',')]
@@ -193,7 +194,7 @@ def _continuations_ok(kids):
     stands alone"""
     if not MULTI:
         return True
-    st = [c.children[0].value for c in kids if c.rule == 'statement']
+    st = [c.children[0].value.strip() for c in kids if c.rule == 'statement']
     sid = str(NPOOL - 1)
     i = 0
     while i < len(st):
@@ -213,7 +214,7 @@ def _fresh_nodes(self, defined_symbols, s, rvs, trans):
     opaque 'statement' node carrying the identity of the statement"""
     sid = POOL.index(s)
     if MULTI and sid == NPOOL - 1:
-        return [_stmt_node([sid]), AttrTree('statement', (AttrToken('S', 'c%d' % sid),))]
+        return [_stmt_node([sid]), AttrTree('statement', (AttrToken('S', 'c%d\n' % sid),))]
     return [_stmt_node([sid])]
 
 
@@ -242,7 +243,7 @@ def build_record(old_ids, gaps, merges):
             # a statement that occupies two nodes in the old record as well
             index.append((len(children), len(children) + 2, si, si + 1))
             children.append(_stmt_node(g))
-            children.append(AttrTree('statement', (AttrToken('S', 'c%d' % g[0]),)))
+            children.append(AttrTree('statement', (AttrToken('S', 'c%d\n' % g[0]),)))
         else:
             index.append((len(children), len(children) + 1, si, si + len(g)))
             children.append(_stmt_node(g))
